@@ -62,6 +62,24 @@ def run(ctx):
             for call in o["token_calls"]:
                 if not call.get("code_verifier") or not call.get("redirect_uri"):
                     ctx.violation("c02-grant-without-binding", "token request without the cookie's verifier / redirect URI", case)
+    # a foreign code WHILE its redemption is in flight: browser B (own login cookie, own state, all browser-side checks pass) presents A's code
+    # during A's token request. B must end without a session (its verifier is not the code's); a session for B would be "a session for a
+    # login this browser did not start". A duplicate of A's own callback in that window may succeed at most once.
+    import json as _json
+    from lib import vf
+    pre2 = ctx.path("codeinflight")
+    vf.run_driver(["codeinflight", "-out", pre2, "-seed", str(ctx.seed), "-tier", ctx.tier])
+    n2 = 0
+    for line in open(pre2 + ".obs"):
+        d = _json.loads(line)
+        n2 += 1
+        if d["variant"] == "foreign-code-own-state" and d["second_session"]:
+            ctx.violation("c02-session-for-foreign-login", "a browser that presented ANOTHER browser's authorization code (while that code was being redeemed) with its own state and login "
+                          "cookie obtained a session", d)
+        if d["variant"] == "same-code-same-browser-twice" and d["first_session"] and d["second_session"] and len([p for p in d["token_requests"] if p["accepted"]]) > 1:
+            ctx.violation("c02-code-redeemed-twice", "one authorization code was redeemed twice", d)
+    ctx.evals += n2
+    ctx.extra["code_in_flight_scenarios"] = n2
     ctx.nontrivial += len(distinct)
     ctx.samples += [{"case": o["case"], "input": li[-300:], "observed": lo} for o, li, lo in list(zip(obs, ins, impl))[:3]]
     ctx.rule = ("full cross product state{absent,empty,own,other attempt's,garbage,logout's} x code{absent,empty,own,other's} x iss{absent,right,foreign,right+'/',upper-cased,right+suffix,right minus last char} x iss-supported "
